@@ -58,8 +58,9 @@ QH_BEGIN
 namespace qw {
 
 // A numeral whose exponent has eight or more digits makes the library's power-of-ten loop run for up to 1.6e8
-// iterations (finite, seconds of CPU: `[1e4294967295]`); texts containing one get a soft step budget, because no
-// fixed step count separates that from an endless loop. (Exponent range is C09, not claimed.)
+// iterations (finite, seconds of CPU: `[1e4294967295]`) in a register-only loop: the step clock stands still while it
+// runs. For texts containing one, a stalled step clock ends the run as abandoned instead of as a hang; the step budget
+// stays hard, so a loop that does touch memory for ever is still reported. (Exponent range is C09, not claimed.)
 inline bool has_long_exponent(const std::u32string &t) {
     for (size_t i = 0; i + 8 < t.size(); i++) {
         if (t[i] != 'e' && t[i] != 'E') continue;
